@@ -1474,6 +1474,27 @@ def python_tables() -> tuple[str, dict]:
     return "\n".join(lines), meta
 
 
+def dispatch_table(funcs: list[FuncInfo]) -> str:
+    """`dispatch name args` evaluates a generated function on concrete words (for the Lean driver)."""
+    lines = ["/-- Evaluate a generated function on concrete words; output `val n` / `fast n` / `slow f neg args…` /",
+             "    `raise Exc n`, followed by ` ub=0|1`. -/",
+             "def dispatch (f : String) (a : List Nat) : String :=",
+             "  match f, a with"]
+    for fn in funcs:
+        xs = [f"x{i}" for i in range(len(fn.params))]
+        args = " ".join(
+            (f"(decide ({x} ≠ 0))" if t.isbool else f"(BitVec.ofNat {t.width} {x})") for x, (_, t) in zip(xs, fn.params))
+        call = f"({fn.name} {args})"
+        if fn.effect == "pure":
+            shown = f"\"val \" ++ CSem.showBool {call}" if fn.ret.isbool else f"\"val \" ++ CSem.showBV {call}"
+        else:
+            shown = f"CSem.showResBool {call}" if fn.ret.isbool else f"CSem.showResBV {call}"
+        ub = f"CSem.showBool ({fn.name}_ub {args})" if fn.has_ub else '"0"'
+        lines.append(f'  | "{fn.name}", [{", ".join(xs)}] => {shown} ++ " ub=" ++ {ub}')
+    lines.append('  | _, _ => "unknown-function"')
+    return "\n".join(lines)
+
+
 # ------------------------------------------------------------------------------------------- assembly
 HEADER = """import MypyVerif.Model.CSem
 /-!
@@ -1495,7 +1516,7 @@ def generate(repo: str = REPO) -> tuple[str, dict]:
             texts.append((s, f.read()))
     res = translate_sources(texts)
     tables, meta = python_tables()
-    lean = HEADER.format(files=", ".join(s.path for s in SOURCES)) + "\n" + res.lean + "\n\n" + tables + "\n\nend CFast\n"
+    lean = HEADER.format(files=", ".join(s.path for s in SOURCES)) + "\n" + res.lean + "\n\n" + tables + "\n\n" + dispatch_table(res.functions) + "\n\nend CFast\n"
     inv = {
         "functions": [{"name": f.name, "where": f.where, "effect": f.effect, "has_ub": f.has_ub,
                        "params": [[p, str(t)] for p, t in f.params], "ret": str(f.ret)} for f in res.functions],
